@@ -38,4 +38,20 @@ def conv_frame(beh, tid):
     return out
 
 
-CONVERTERS = {"packet": conv_packet, "frame": conv_frame}
+def conv_session(beh, tid):
+    script, open_req = [], {}
+    for s in beh["steps"]:
+        key = (tuple(s["cmd"]), tuple(s["sid"]))
+        if s["a"] == "S":
+            fl = s["cmd"][3] if s["type"] == "smpp34.Bind" else 0
+            script.append({"a": "S", "type": s["type"], "seq": s["sid"], "flavour": fl})
+            open_req[key] = s["k"]
+        elif s["a"] == "R":
+            script.append({"a": "R", "idx": open_req.get(key, 0)})
+        else:
+            req = ((s["cmd"][0] - 128,) + tuple(s["cmd"][1:]), tuple(s["sid"]))
+            script.append({"a": "C", "idx": open_req.get(req, 0)})
+    return [{"t": tid, "pkg": beh["pkg"], "script": script}]
+
+
+CONVERTERS = {"packet": conv_packet, "frame": conv_frame, "session": conv_session}
